@@ -69,17 +69,18 @@ type fakeChain struct {
 	switchedAt       time.Time
 	sc               *scenario
 
-	mu        sync.Mutex
-	cur       int // current round, -1 = no template on the tip
-	best      *blockchain.BlockNode
-	waiter    chan *blockchain.BlockNode
-	subs      []submission
-	accepted  map[uint64]int // height -> number of accepted submissions
-	templates []int          // per round: templates delivered
-	reoffered int            // templates delivered for a height that was already accepted
-	waiters   int
-	lostTips  int
-	subCh     chan int // index into subs, signalled on every ProcessBlock
+	mu            sync.Mutex
+	cur           int // current round, -1 = no template on the tip
+	best          *blockchain.BlockNode
+	waiter        chan *blockchain.BlockNode
+	subs          []submission
+	accepted      map[uint64]int // height -> number of accepted submissions
+	templates     []int          // per round: templates delivered
+	reoffered     int            // templates delivered for a height that was already accepted
+	waiters       int
+	waiterRefused int
+	lostTips      int
+	subCh         chan int // index into subs, signalled on every ProcessBlock
 
 	peers    int
 	caughtUp bool
@@ -118,9 +119,30 @@ func (c *fakeChain) BlockWaiter(height uint64) (<-chan *blockchain.BlockNode, er
 	c.mu.Lock()
 	defer c.mu.Unlock()
 	c.waiters++
+	if c.best != nil && c.best.Height > height {
+		// Blockchain.BlockWaiter: waiting for a height the best chain has already left behind is refused
+		c.waiterRefused++
+		return nil, errors.New("wait for old block height")
+	}
 	ch := make(chan *blockchain.BlockNode, 1)
 	c.waiter = ch
 	return ch, nil
+}
+
+// announceSideThenGrow: a side-chain block that is not better reaches the registered waiter, and before the waiter can be
+// registered again the best chain has grown past the parent's height (so the re-registration is refused).
+func (c *fakeChain) announceSideThenGrow(side, grown *blockchain.BlockNode) (delivered bool, at time.Time) {
+	c.mu.Lock()
+	defer c.mu.Unlock()
+	c.best = grown
+	c.cur = -1
+	if c.waiter != nil {
+		c.waiter <- side
+		close(c.waiter)
+		c.waiter = nil
+		delivered = true
+	}
+	return delivered, time.Now()
 }
 
 // announce delivers a competing tip the way Blockchain.BlockWaiter does (one node, then close).
@@ -320,6 +342,9 @@ func (k *fakeKeeper) SignHash(sid string, hash [32]byte) (*pocec.Signature, erro
 			d := wire.HashH(hash[:])
 			sig, err = sp.priv.Sign(d[:])
 		}
+	}
+	if k.sc.P.Class == "sign-refused" {
+		sig, err = nil, errors.New("wallet is locked")
 	}
 	k.mu.Lock()
 	k.signs = append(k.signs, signCall{At: at, SID: sid, Hash: hash, Err: err != nil})
